@@ -207,6 +207,20 @@ def hostile_cases(rng, n):
         val = rng.choice([0, 1, 21, 22, 31, 32, 33, 40, 255, 8192, 8193, 100000, 100001, 0x7FFFFFFF, 0x80000000, 0xFFFFFFFF])
         struct.pack_into("<I", b, hs1 + field, val)
         sc = scenario.Scn().file("in0.chm", bytes(b)); fmt_ops("chm", sc, 6); out.append(Case("hostile:chm-hdr", "chm", sc))
+    for i in range(2 * n):
+        # (1b) a member declared one byte (or a few) longer than its folder's data: the decoder runs out exactly at the end of the request
+        meth = [("lzx", rng.choice([15, 16, 18])), ("mszip",), ("qtm", rng.choice([15, 17])), ("none",)][i % 4] if i < 8 else rng.choice([("none",), ("mszip",), ("lzx", rng.choice([15, 16, 18])), ("qtm", rng.choice([15, 17]))])
+        c = gen.cab_single(rng, nfolders=1, methods=[meth])
+        cab = bytearray(list(c.files.values())[0]); nfiles = struct.unpack_from("<H", cab, 28)[0]; foff = struct.unpack_from("<I", cab, 16)[0]
+        # walk the file table to the last entry and bump its length
+        p = foff
+        for k in range(nfiles):
+            last = p; p += 16
+            while cab[p]: p += 1
+            p += 1
+        ln = struct.unpack_from("<I", cab, last)[0]; struct.pack_into("<I", cab, last, ln + (1 if i < 8 else rng.choice([1, 1, 2, 7])))
+        sc = scenario.Scn().file("in0.cab", bytes(cab)).op("cab_new").op("cab_param", 2, rng.choice([4, 4096, 65536])).op("cab_open", "c0", "in0.cab").op("cab_extract_all", "c0", "out", 8).op("cab_close", "c0")
+        out.append(Case("hostile:cab-member-plus", "cab", sc))
     for i in range(n):
         # (2) cabinet whose block sizes sit at the limits, strict and salvage
         csz = rng.choice([32768, 38912, 38913, 65535, 40000]); usz = rng.choice([32768, 32769, 65535, 1])
